@@ -109,6 +109,26 @@ def main():
                      neg_cfg("Encrypt_MC", "Encrypt_MC.cfg", [('GEN = "fresh"', 'GEN = "any"')], "IvsPairwiseDistinctPerKey"))
         ok &= expect("Encrypt_MC: stale AAD literal is a counterexample",
                      neg_cfg("Encrypt_MC", "Encrypt_MC.cfg", [('LITERAL = "matches"', 'LITERAL = "stale"')], "DecryptsToFirmware"))
+        ok &= expect("Encrypt_MC: an Encryptor that keeps its first KMS context is a counterexample (needs a history of two calls)",
+                     neg_cfg("Encrypt_MC", "Encrypt_MC.cfg", [('INITKMS = "each"', 'INITKMS = "once"')], "DecryptsToFirmware"))
+        # ---- C09 resolution trace (logging plug-in sign scripts)
+        from . import c09_policy as c09
+        wd = ctx.tmp("st_res")
+        world = c09.ResolveWorld(wd, keys)
+        root_file = c09.resolve_root(ctx, wd / "tree", keys)
+        none = {"sign": "none", "kms": "none", "ctx": "none", "alg": "none", "action": "none"}
+        scn = {"chain": [dict(none, sign="A", kms="B", ctx="C1"), dict(none, kms="A", action="skip"), none],
+               "env": {"ncsSign": True, "ncsKms": True, "zephyr": False}, "refused": False}
+        tr = toolrun.Trace()
+        c09.run_resolve(ctx, tr, world, root_file, scn)
+        ok &= expect("C09 genuine resolution trace accepted", clauses(ctx, "Tool_Trace", tr.events) == [])
+        bad = copy.deepcopy(tr.events)
+        bad[1]["used"][2]["kms"] = "E"
+        ok &= expect("C09 child signed through the environment's KMS rejected",
+                     clauses(ctx, "Tool_Trace", bad) == ["KmsScriptOwnThenInheritedThenEnvironment"])
+        bad = copy.deepcopy(tr.events)
+        bad[1]["used"] = bad[1]["used"][:2]
+        ok &= expect("C09 dropped node call rejected", clauses(ctx, "Tool_Trace", bad) == ["EveryNamedNodeSignedOnce"])
     finally:
         ctx.abort()
     print("selftest", "PASSED" if ok else "FAILED")
